@@ -183,6 +183,34 @@ pub fn request(path: &str, fmt: Fmt, v: &Value) -> Option<(Message, Result<Optio
     })
 }
 
+#[derive(Clone, Copy, Debug, PartialEq)]
+pub enum Via {
+    Handle,
+    HandleWithCtx,
+    HandleView,
+}
+
+impl Via {
+    pub fn name(self) -> &'static str {
+        match self {
+            Via::Handle => "handle",
+            Via::HandleWithCtx => "handle_with_ctx",
+            Via::HandleView => "handle_view",
+        }
+    }
+    pub fn dispatch(self, h: &dyn repe::server::HandlerErased, msg: &Message) -> Result<Message, repe::RepeError> {
+        match self {
+            Via::Handle => h.handle(msg),
+            Via::HandleWithCtx => h.handle_with_ctx(msg, &repe::CallContext::detached("")),
+            Via::HandleView => {
+                let bytes = msg.to_vec();
+                let view = repe::MessageView::from_slice(&bytes)?;
+                h.handle_view(&view, &repe::CallContext::detached(""))
+            }
+        }
+    }
+}
+
 fn response(r: Result<Message, repe::RepeError>) -> LiveRes {
     match r {
         Err(_) => Err(u32::MAX - 1),
@@ -572,12 +600,14 @@ impl Cfg {
                 }
                 _ => None,
             };
-            for (pi, prefix) in PREFIXES.iter().enumerate() {
+            // every dispatch path of the mounted handler: the copying one (`handle`), the one the servers' context-aware
+            // loops use (`handle_with_ctx`) and the zero-copy one (`handle_view`, the request parsed from its wire bytes)
+            for (pi, prefix, via) in PREFIXES.iter().enumerate().flat_map(|(pi, prefix)| [Via::Handle, Via::HandleWithCtx, Via::HandleView].map(|via| (pi, prefix, via))) {
                 let path = format!("{prefix}{p}");
                 let Some((msg, _)) = request(&path, fmt, &v) else { continue };
                 let t = self.twin(seed, prefix_ops);
                 let router = Router::new().with_registry(prefix, Arc::clone(&t.reg));
-                let what = format!("request {path:?} (body format {}, value {}) through a registry mounted at {prefix:?}", fmt.name(), if matches!(op, Op::Read(_)) { "none".to_string() } else { v.to_string() });
+                let what = format!("request {path:?} (body format {}, value {}) through a registry mounted at {prefix:?}, dispatched with {}", fmt.name(), if matches!(op, Op::Read(_)) { "none".to_string() } else { v.to_string() }, via.name());
                 let routed_to = strip(prefix, &path);
                 let handler = router.get(&path);
                 let Some(q) = routed_to else {
@@ -595,12 +625,14 @@ impl Cfg {
                 if o::reg_tokens(q) != o::reg_tokens(p) {
                     continue; // cannot happen for this universe (prefix + p strips back to p)
                 }
-                acc.ctr[C_ROUTED + pi * 7 + fmt.idx()] += 1;
+                if via == Via::Handle {
+                    acc.ctr[C_ROUTED + pi * 7 + fmt.idx()] += 1;
+                }
                 let Some(h) = handler else {
                     acc.fail("C14:mount:unrouted".into(), format!("{what}: Router::get finds no handler for a path below the prefix"));
                     continue;
                 };
-                let r = response(h.handle(&msg));
+                let r = response(via.dispatch(h.as_ref(), &msg));
                 let key = format!("C14:routed:{}", fmt.name());
                 match &eq_op {
                     None => {
